@@ -27,6 +27,11 @@ from engine.tlc import MachineryError, mktemp, parse_dot, require_clean, run_tlc
 # Part A - application life cycle
 # ====================================================================================
 DEVS = ["SetupInTry", "UnfrozenCleansSubs", "CleanupCollects", "ShutdownContained"]
+# The code as it is: FALSE = the deviation is present in /repo.  When a fix is committed flip the constant here
+# (the as-coded model run and the prediction used by the refinement clause follow); until then the check only
+# reports DRIFT 'callback-order' for the fixed behaviour.  C20_FIXED=name,name overrides for experiments.
+_FIXED = {x for x in os.environ.get("C20_FIXED", "").split(",") if x}
+CODE_AS_IS = {d: d in _FIXED for d in DEVS}
 DEV_CLAUSE = {
     "SetupInTry": "RunAppStartupFailureSkipsCleanup",
     "UnfrozenCleansSubs": "SubAppContextNotExitedAfterFailedStartup",
@@ -262,7 +267,11 @@ def a_describe(t: dict) -> str:
 
 
 def a_validate(traces: List[dict]) -> tuple:
-    return validate_batch("AppLifecycleTrace", "AppLifecycleTrace.cfg", traces, timeout=900)
+    # spec/AppLifecycleTrace.cfg with the constants of CODE_AS_IS (identical unless a fix was declared)
+    cfg = a_cfg("trace", CODE_AS_IS, 1, [], spec="TSpec")
+    with open(cfg, "a") as f:
+        f.write("POSTCONDITION PrintVerdicts\nCHECK_DEADLOCK FALSE\n")
+    return validate_batch("AppLifecycleTrace", cfg, traces, timeout=900)
 
 
 def a_model_counterexample(ctx: Ctx, dev: str) -> Optional[dict]:
@@ -329,7 +338,7 @@ def run_part_a(ctx: Ctx) -> None:
     ok = ctx.expect_model_ok(f"AppLifecycle[ideal](start faults<={msf}, 3 entries)", res)
     ctx.log(f"A model[ideal]: {res.distinct} states ok={ok} {res.wall_s:.0f}s")
     # 2. the code as it is: everything that goes wrong is one of the four named deviations
-    res = run_tlc("AppLifecycle", a_cfg("ascoded", {k: False for k in DEVS}, msf,
+    res = run_tlc("AppLifecycle", a_cfg("ascoded", CODE_AS_IS, msf,
                                         ["AsCodedExplained", "NeverExitUnstarted", "ReverseOrder", "ErrorsSurface"]),
                   workers=16, timeout=ctx.pick(300, 1200), coverage=True)
     ok = ctx.expect_model_ok(f"AppLifecycle[as-coded](start faults<={msf}, 3 entries)", res)
@@ -718,7 +727,7 @@ B_INVS = ["NoNewRequests", "IdleClosedAtOnce", "GraceRespected", "CancelledBy2T"
 B_FLAGS = ["CloseIdleAtOnce", "CancelLostConnHandler", "PreShutdownCloses", "GraceWait", "SecondWait"]
 B_DEVS = {"CloseIdleAtOnce": ("IdleClosedAtOnce", "IdleClosedByServerShutdown", "IdleOpenDuringOnShutdown"),
           "CancelLostConnHandler": ("CancelledBy2T", "CancelledBy2TExceptLost", "LostConnHandlerSurvivesShutdown")}
-B_ASCODED = {"CloseIdleAtOnce": False, "CancelLostConnHandler": False}
+B_ASCODED = {"CloseIdleAtOnce": "CloseIdleAtOnce" in _FIXED, "CancelLostConnHandler": "CancelLostConnHandler" in _FIXED}
 
 
 def b_cfg(name: str, nconn: int, durs: List[int], dts: List[int], flags: Dict[str, bool], invs: List[str],
